@@ -169,4 +169,7 @@ def generate(seed, tier, family=None):
             elif fam == "udp": out.append(udp_scenario(rng, sid))
             elif fam == "mixed": out.append(mixed_scenario(rng, sid))
             else: out.append(net_gen.scenario(rng, sid, rng.choice(["tcp", "tcp_heavy", "udp", "mixed"])))
+    if not family:
+        # connected sockets moved in mid-stream keep their MSS (MTU 500 / 800 / 1400 / default)
+        out += tg.generate_moved(seed + 23, tier, 40 if tier == "quick" else 1200)
     return out
